@@ -12,7 +12,9 @@ import gen_unicode
 PID = 'C11'
 THEOREMS = ['C11_utf8_roundtrip', 'C11_utf8_is_rfc3629', 'C11_utf8_decode', 'C11_decode_rejects_lone_continuation',
             'C11_decode_rejects_bad_continuation', 'C11_utf16_bmp', 'C11_utf16_surrogates',
-            'C11_ident_start_ranges', 'C11_ident_cont_ranges', 'C11_int_literal_type', 'C11_nonvacuous']
+            'C11_ident_start_ranges', 'C11_ident_cont_ranges', 'C11_int_literal_type', 'C11_nonvacuous',
+            # package escapes (Properties_C11_escapes.v)
+            'C11_escape_value', 'C11_escape_value_exact', 'C11_escape_rejects_bare_x', 'C11_string_stored', 'C11_string_literal', 'C11_string_unclosed', 'C11_char_constant', 'C11_char_constant_stored', 'C11_char_unclosed', 'C11_char_multichar', 'C11_char_multichar_escaped_quote_refuted', 'C11_escapes_nonvacuous', 'C11_int_suffix_iff', 'C11_int_constant', 'C11_int_constant_iff', 'C11_int_rejects_dot', 'C11_int_constant_iff_refuted', 'C11_int_overflow_saturates', 'C11_int_recogniser', 'C11_ucn_replaced', 'C11_ucn_string_literal', 'C11_ucn_char_constant', 'C11_ucn_zero_kept', 'C11_escapes_nonvacuous_int_ucn']
 MODELRUN = os.path.join(VERIF, 'ocaml/modelrun')
 PRINTF = 'int printf(const char *, ...);\n'
 SUFFIXES = ['', 'u', 'U', 'l', 'L', 'll', 'LL', 'ul', 'uL', 'Ul', 'UL', 'lu', 'lU', 'Lu', 'LU',
@@ -142,7 +144,7 @@ def main():
         gen_unicode.gen(REPO, os.path.join(COQ, 'theories/Gen/UnicodeTables.v'))
     except GenError as e:
         run.proof_broken.append('translator: ' + str(e))
-    run.check_proofs(deps=['theories/Model/Unicode.vo', 'theories/Spec/IntLitSpec.vo', 'theories/Spec/Utf.vo'])
+    run.check_proofs(deps=['theories/Model/Unicode.vo', 'theories/Spec/IntLitSpec.vo', 'theories/Spec/Utf.vo'], extra=['escapes'])
     NCORPUS = run_corpus(run, PID, src)          # minimised past failures first
     rc, o, e = sh([os.path.join(VERIF, 'ocaml/build.sh')], timeout=900)
     model_ok = rc == 0
@@ -233,9 +235,14 @@ def main():
         if rc != 1 or 'invalid UTF-8' not in e:
             run.violation(dict(kind='malformed-utf8-accepted', bytes=bad.hex(), exit=rc, stderr=e[-200:]), dict(area='decode-reject'))
 
+    # ---------------- tie of package escapes: cases evaluated by the Coq spec and model (one coqc call) and by the real compiler ----------------
+    tie_dist = {}; tie_e = tie_n = 0; tie_samples = []
+    if not os.environ.get('VERIF_SKIP_PROOFS'):
+        tie_e, tie_n, tie_dist, tie_samples = run_tie(run, 'escapes', src, 300 if run.quick() else 1500, 'literal')
     cov = dict(evaluations=evals, distinct_nontrivial=nontriv + (0x110000 if ok and model_ok else 0), exhaustive=bool(ok and model_ok),
                rule='exhaustive: every code point < 2^21 through encode_utf8/decode_utf8 and every value < 0x110400 through is_ident1/is_ident2 of the linked unicode.c against the extracted proved model; integer literals: 4 bases x 23 suffix spellings x thresholds 2^31/2^32/2^63/2^64 +-1 + random magnitudes (non-trivial = value >= 2^31-1); generated string/char literal programs incl. concatenation, UCNs, BOM/CRLF/splice variants against gcc',
                samples=samples, traces_validated_against_impl=unit_evals, spec_vs_reference_disagreements=spec_ref + str_dis)
+    cov['rule'] = cov.get('rule', '') + ' ' + '(g) package escapes: ~2 200 literal spellings on the case splits (every simple escape, octal of 1-4 digits, \\\\x with 1-20 digits, values at 255/256/65535/65536/2^32 per prefix, escaped backslashes before u/x/digits, all suffix spellings valid and invalid, bases with leading zeros, maxima +-1): sizeof, every element and the type class printed by the compiled program (invalid ones must be rejected) = Coq spec = Coq model'; cov['tie_escapes'] = tie_dist; cov['evaluations'] = cov.get('evaluations', 0) + tie_e; cov['distinct_nontrivial'] = cov.get('distinct_nontrivial', 0) + tie_n
     return run.finish(cov,
         ['gcc 12 is the reference compiler for escape sequences, concatenation and UCN spelling (its disagreement with the proved spec is counted, never reported)',
          'long long is identified with long (same size and signedness on LP64)'],
